@@ -172,6 +172,35 @@ def p6_lookup_reads_inside(mod, run, fnbase, tag, B):
     return n
 
 
+def p7_midpoint_not_narrowed(mod, run, fnbase, tag):
+    """P7: the midpoint of the lower-bound search is halved in the type the sum was formed in.  With an 8- or 16-bit length type the
+    operands are promoted to int; `(LEN)(min + max) >> 1` narrows the sum first, so for min + max >= 2^bits the midpoint falls below min:
+    the search loops or answers with an index that is not the first equal element."""
+    fn = mod.fn(fnbase + "BinarySearch")
+    if fn is None: return 0
+    n = 0
+    for i in fn.insts():
+        halves = (i.op in ("lshr", "ashr") and i.ops[1]["k"] == "int" and int(i.ops[1]["v"]) == 1) or (i.op in ("udiv", "sdiv") and i.ops[1]["k"] == "int" and int(i.ops[1]["v"]) == 2)
+        if not halves: continue
+        o = i.ops[0]; narrowed = None; is_sum = False
+        for _ in range(6):
+            if o["k"] != "inst": break
+            x = fn.imap[o["v"]]
+            if x.op in ("zext", "sext"): o = x.ops[0]
+            elif x.op == "trunc": narrowed = x; o = x.ops[0]
+            elif x.op == "add": is_sum = True; break
+            elif x.op == "sub": is_sum = True; narrowed = None; break            # `min + (max - min) / 2`: the difference always fits
+            else: break
+        if not is_sum: continue
+        n += 1
+        run.check(narrowed is None, "P7-search-midpoint-halved-before-narrowing", {"fn": fn.name, "set": tag},
+                  Finding("P7-search-midpoint-narrowed-before-halving", fn.name, "mid", "arith",
+                          "%s narrows min + max to %s before halving it (at %s): once the array is longer than half the range of the length type the sum wraps, the midpoint falls below min and the search does not find the first equal element (or does not terminate)" % (
+                              fn.name, narrowed["t"] if narrowed is not None else "?", loc9(i)), loc=loc9(i)))
+    if n == 0: raise AnalysisBroken("%s: no halving of min + max found in the binary search" % fn.name)
+    return n
+
+
 def loc9(i):
     from ..report import rel
     return "%s:%s" % (rel(i.d.get("file", i.fn.file)), i.d.get("line", "?"))
@@ -222,7 +251,10 @@ def run(tier):
     for d in qtab:
         if d["slot"] in seen_slots or qm.fn(d["fn"] + "Delete") is None: continue
         seen_slots.add(d["slot"]); n5 += p5_delete_stays_inside(qm, run, d["fn"], "quick", Bq); n6 += p6_lookup_reads_inside(qm, run, d["fn"], "quick", Bq)
-    per["library"] = {"instantiations": 1, "cases": nl, "delete_index_obligations": n5}
+    n7 = p7_midpoint_not_narrowed(lm, run, "varintPacked12", "library")
+    for d in qtab: n7 += p7_midpoint_not_narrowed(qm, run, d["fn"], "quick")
+    run.floor("binary-search midpoints", n7, 2)
+    per["library"] = {"instantiations": 1, "cases": nl, "delete_index_obligations": n5, "search_midpoints": n7}
     run.floor("Delete index obligations", n5, 2); run.floor("lookup index obligations", n6, 1)
     per["library"]["lookup_index_obligations"] = n6
     controls(run)
